@@ -7,6 +7,8 @@ import (
 	"go/ast"
 	"go/token"
 	"go/types"
+	"regexp"
+	"regexp/syntax"
 	"strings"
 
 	"golang.org/x/tools/go/ast/astutil"
@@ -1101,7 +1103,7 @@ func init() {
 			NotDecided:  []string{"that the generated regexp means what the pattern grammar says ({name}, {name:regex}, [...])", "isFixedPath and the off-by-one arithmetic inside seg (only writer/reader agreement is checked)", "priority among patterns that the grammar makes overlap beyond tier and registration order"},
 			Assumptions: []string{"regexp package semantics", "go/ssa range-loop lowering (#rangeindex) visits elements in ascending order"},
 		},
-		Rules: []ruleFn{{"C01-ACCUM", ruleC01Accum}, {"C01-METHODS", ruleC01Methods}, {"C01-KEYS", ruleC01Keys}, {"C01-TIERS", ruleC01Tiers}, {"C01-REPR", ruleC01Repr}, {"C01-ANCHOR", ruleC01Anchor}, {"C07-KEY", ruleCacheKey("C07-KEY")}, {"C07-VALUE", ruleC02Cache("C07-VALUE")}, {"C07-NODE", ruleCacheStruct("C07")}},
+		Rules: []ruleFn{{"C01-ACCUM", ruleC01Accum}, {"C01-METHODS", ruleC01Methods}, {"C01-KEYS", ruleC01Keys}, {"C01-TIERS", ruleC01Tiers}, {"C01-REPR", ruleC01Repr}, {"C01-ANCHOR", ruleC01Anchor}, {"C01-GRAMMAR", ruleC01Grammar}, {"C07-KEY", ruleCacheKey("C07-KEY")}, {"C07-VALUE", ruleC02Cache("C07-VALUE")}, {"C07-NODE", ruleCacheStruct("C07")}},
 	})
 	register(&property{
 		Meta: propertyMeta{
@@ -1110,7 +1112,7 @@ func init() {
 			NotDecided:  []string{"values equal the path substrings; values satisfy the variable's regex; empty string for absent optional parts (run-time regexp behaviour)"},
 			Assumptions: []string{"regexp.FindAllStringSubmatch returns 1+NumSubexp entries per match (documented)"},
 		},
-		Rules: []ruleFn{{"C02-ALIGN", ruleC02Align}, {"C02-GROUPS", ruleC02Groups}, {"C02-WRITERS", ruleC02Writers}, {"C02-CACHE", ruleC02Cache("C02-CACHE")}, {"C07-NODE", ruleCacheStruct("C07")}, {"C07-KEY", ruleCacheKey("C07-KEY")}, {"C01-ANCHOR", ruleC01Anchor}},
+		Rules: []ruleFn{{"C02-ALIGN", ruleC02Align}, {"C02-GROUPS", ruleC02Groups}, {"C02-WRITERS", ruleC02Writers}, {"C02-CACHE", ruleC02Cache("C02-CACHE")}, {"C07-NODE", ruleCacheStruct("C07")}, {"C07-KEY", ruleCacheKey("C07-KEY")}, {"C01-ANCHOR", ruleC01Anchor}, {"C01-GRAMMAR", ruleC01Grammar}},
 	})
 }
 
@@ -1125,4 +1127,159 @@ func fieldBaseIs(v ssa.Value, base ssa.Value) bool {
 		return x.X == base
 	}
 	return false
+}
+
+// ---------------------------------------------------------------------------
+// C01-GRAMMAR: the constant translation table of the pattern grammar, checked
+// semantically (regexp/syntax), not textually.
+
+func reNoSlashNonEmpty(expr string) (noSlash, nonEmpty bool, err error) {
+	re, err := syntax.Parse(expr, syntax.Perl)
+	if err != nil {
+		return false, false, err
+	}
+	re = re.Simplify()
+	var canSlash func(r *syntax.Regexp) bool
+	canSlash = func(r *syntax.Regexp) bool {
+		switch r.Op {
+		case syntax.OpLiteral:
+			for _, c := range r.Rune {
+				if c == '/' {
+					return true
+				}
+			}
+			return false
+		case syntax.OpCharClass:
+			for i := 0; i+1 < len(r.Rune); i += 2 {
+				if r.Rune[i] <= '/' && '/' <= r.Rune[i+1] {
+					return true
+				}
+			}
+			return false
+		case syntax.OpAnyChar, syntax.OpAnyCharNotNL:
+			return true
+		}
+		for _, s := range r.Sub {
+			if canSlash(s) {
+				return true
+			}
+		}
+		return false
+	}
+	var canEmpty func(r *syntax.Regexp) bool
+	canEmpty = func(r *syntax.Regexp) bool {
+		switch r.Op {
+		case syntax.OpEmptyMatch, syntax.OpStar, syntax.OpQuest, syntax.OpBeginLine, syntax.OpEndLine, syntax.OpBeginText, syntax.OpEndText, syntax.OpWordBoundary, syntax.OpNoWordBoundary:
+			return true
+		case syntax.OpLiteral:
+			return len(r.Rune) == 0
+		case syntax.OpCharClass, syntax.OpAnyChar, syntax.OpAnyCharNotNL:
+			return false
+		case syntax.OpPlus, syntax.OpCapture:
+			return canEmpty(r.Sub[0])
+		case syntax.OpRepeat:
+			return r.Min == 0 || canEmpty(r.Sub[0])
+		case syntax.OpConcat:
+			for _, s := range r.Sub {
+				if !canEmpty(s) {
+					return false
+				}
+			}
+			return true
+		case syntax.OpAlternate:
+			for _, s := range r.Sub {
+				if canEmpty(s) {
+					return true
+				}
+			}
+			return false
+		}
+		return true
+	}
+	return !canSlash(re), !canEmpty(re), nil
+}
+
+func ruleC01Grammar(r *Run) {
+	w := r.W
+	rule := "C01-GRAMMAR"
+	r.Floor(rule, 5)
+	// {name}: one non-empty path segment
+	am, _ := constString(w.Const("rux", "anyMatch").Value)
+	ns, ne, err := reNoSlashNonEmpty(am)
+	r.Check(rule, "rux.anyMatch", w.Const("rux", "anyMatch").Pos(), err == nil && ns && ne,
+		fmt.Sprintf("default variable regex %q: cannot match '/' = %v, cannot match the empty string = %v (a plain {name} is exactly one non-empty path segment)", am, ns, ne))
+	// the default is what parseParamRoute uses for variables without a regex
+	pf := w.Fn("rux", "Router.parseParamRoute")
+	ggv := w.Fn("rux", "getGlobalVar")
+	okDef := false
+	for _, c := range callsToFn(pf, ggv) {
+		if s, ok := constString(c.Common().Args[1]); ok && s == am {
+			okDef = true
+		}
+	}
+	r.Check(rule, "(*Router).parseParamRoute:default regex", pf.Pos(), okDef, "variables without a custom regex use anyMatch unless a global variable of that name is defined")
+	// the built-in global variables 'any' and 'num' stay inside one segment
+	gv := w.Global("rux", "globalVars")
+	init := w.SSA[modPath].Func("init")
+	var mk *ssa.MakeMap
+	eachInstr(init, func(in ssa.Instruction) {
+		if st, ok := in.(*ssa.Store); ok && st.Addr == ssa.Value(gv) {
+			mk, _ = st.Val.(*ssa.MakeMap)
+		}
+	})
+	if mk != nil {
+		for _, ref := range *mk.Referrers() {
+			if mu, ok := ref.(*ssa.MapUpdate); ok {
+				k, _ := constString(mu.Key)
+				v, _ := constString(mu.Value)
+				if k == "all" {
+					continue // documented to span segments
+				}
+				ns, ne, err := reNoSlashNonEmpty(v)
+				r.Check(rule, "rux.globalVars["+k+"]", w.InstrPos(mu), err == nil && ns && ne, fmt.Sprintf("built-in variable %q = %q stays inside one non-empty segment", k, v))
+			}
+		}
+	}
+	// '.' is a literal: every '.' is escaped
+	qp := w.Fn("rux", "quotePointChar")
+	okQ := false
+	for _, c := range callsIn(qp, func(c ssa.CallInstruction) bool { n := calleeName(c); return n == "strings.Replace" || n == "strings.ReplaceAll" }) {
+		a := c.Common().Args
+		from, _ := constString(a[1])
+		to, _ := constString(a[2])
+		all := calleeName(c) == "strings.ReplaceAll"
+		if !all && len(a) == 4 {
+			n, _ := constInt(a[3])
+			all = n < 0
+		}
+		if from == "." && to == `\.` && all && a[0] == ssa.Value(qp.Params[0]) {
+			okQ = true
+		}
+	}
+	r.Check(rule, "rux.quotePointChar", qp.Pos(), okQ, "every '.' of the pattern is replaced by an escaped dot")
+	// optional parts: '[' opens a non-capturing group, ']' closes it optionally
+	cpo := w.Fn("rux", "checkAndParseOptional")
+	okO := false
+	for _, c := range callsToName(cpo, "strings.NewReplacer") {
+		el := litElems(c.Common().Args[0])
+		if len(el) == 4 {
+			var s [4]string
+			for i, e := range el {
+				s[i], _ = constString(e)
+			}
+			// validate semantically: "x" + open + "y" + close must parse to x(?:y)? with no capture group
+			if s[0] == "[" && s[2] == "]" {
+				re, err := syntax.Parse("x"+s[1]+"y"+s[3], syntax.Perl)
+				if err == nil && re.MaxCap() == 0 {
+					re = re.Simplify()
+					// must match "x" and "xy" and nothing else of length <= 3 over {x,y}
+					cre, err2 := regexp.Compile("^(?:" + "x" + s[1] + "y" + s[3] + ")$")
+					if err2 == nil && cre.MatchString("x") && cre.MatchString("xy") && !cre.MatchString("xyy") && !cre.MatchString("") && !cre.MatchString("y") {
+						okO = true
+					}
+				}
+			}
+		}
+	}
+	r.Check(rule, "rux.checkAndParseOptional:translation", cpo.Pos(), okO, "'[' ... ']' is translated to an optional non-capturing group")
 }
